@@ -89,7 +89,24 @@ func (c *Call) prepare() *prepared {
 		p.rms = append(p.rms, perType[n])
 		p.rmsCp = append(p.rmsCp, copyMap(s.PerType[n]))
 	}
-	p.call = func() error { return s.callWith(src, unscoped, perType, names) }
+	var decoys []valid.RM
+	if s.Twice {
+		if s.Unscoped != nil {
+			decoys = append(decoys, decoyOf(s.Unscoped))
+		}
+		for _, n := range names {
+			decoys = append(decoys, decoyOf(s.PerType[n]))
+		}
+		for _, d := range decoys {
+			p.rms = append(p.rms, d)
+			cp := map[string]string{}
+			for k, v := range d {
+				cp[k] = v
+			}
+			p.rmsCp = append(p.rmsCp, cp)
+		}
+	}
+	p.call = func() error { return s.callWith(src, unscoped, perType, names, decoys...) }
 	return p
 }
 
@@ -125,7 +142,7 @@ func (p *prepared) inputsUnchanged(c *Call) string {
 }
 
 // callWith is StructCase.call with rule maps supplied by the caller.
-func (c *StructCase) callWith(src interface{}, unscoped valid.RM, perType map[string]valid.RM, names []string) error {
+func (c *StructCase) callWith(src interface{}, unscoped valid.RM, perType map[string]valid.RM, names []string, decoys ...valid.RM) error {
 	switch c.Entry {
 	case "Struct":
 		if c.Unscoped != nil {
@@ -134,22 +151,22 @@ func (c *StructCase) callWith(src interface{}, unscoped valid.RM, perType map[st
 		return valid.Struct(src)
 	case "ValidateStruct":
 		if c.Tag != "" {
-			return valid.ValidateStruct(src, c.Tag)
+			return valid.ValidateStruct(src, c.tagArg())
 		}
 		return valid.ValidateStruct(src)
 	case "StructForFn":
 		if c.Tag != "" {
-			return valid.StructForFn(src, unscoped, c.Tag)
+			return valid.StructForFn(src, unscoped, c.tagArg())
 		}
 		return valid.StructForFn(src, unscoped)
 	case "ValidStructForRule":
 		if c.Tag != "" {
-			return valid.ValidStructForRule(unscoped, src, c.Tag)
+			return valid.ValidStructForRule(unscoped, src, c.tagArg())
 		}
 		return valid.ValidStructForRule(unscoped, src)
 	case "ValidStructForMyValidFn":
 		if c.Tag != "" {
-			return valid.ValidStructForMyValidFn(src, c.CallFns[0], perCallFn(c.CallFns[0]), c.Tag)
+			return valid.ValidStructForMyValidFn(src, c.CallFns[0], perCallFn(c.CallFns[0]), c.tagArg())
 		}
 		return valid.ValidStructForMyValidFn(src, c.CallFns[0], perCallFn(c.CallFns[0]))
 	case "StructForFns":
@@ -158,7 +175,7 @@ func (c *StructCase) callWith(src interface{}, unscoped valid.RM, perType map[st
 			fm[n] = perCallFn(n)
 		}
 		if c.Tag != "" {
-			return valid.StructForFns(src, unscoped, fm, c.Tag)
+			return valid.StructForFns(src, unscoped, fm, c.tagArg())
 		}
 		return valid.StructForFns(src, unscoped, fm)
 	case "Nested":
@@ -170,14 +187,23 @@ func (c *StructCase) callWith(src interface{}, unscoped valid.RM, perType map[st
 	}
 	var vs *valid.VStruct
 	if c.Tag != "" {
-		vs = valid.NewVStruct(c.Tag)
+		vs = valid.NewVStruct(c.tagArg())
 	} else {
 		vs = valid.NewVStruct()
 	}
+	di := 0
 	if c.Unscoped != nil {
+		if c.Twice && di < len(decoys) {
+			vs.SetRule(decoys[di]) // replaced by the next call
+			di++
+		}
 		vs.SetRule(unscoped)
 	}
 	for _, n := range names {
+		if c.Twice && di < len(decoys) {
+			vs.SetRule(decoys[di], reflect.New(libType(n)).Interface())
+			di++
+		}
 		vs.SetRule(perType[n], reflect.New(libType(n)).Interface())
 	}
 	for _, n := range c.CallFns {
